@@ -20,7 +20,7 @@
 #endif
 
 #ifndef MPT_cobs_max_dec
-# define MPT_cobs_max_dec(c)    ((c) - ((c) / MPT_COBS_MAXLEN))
+# define MPT_cobs_max_dec(c)    (c) /* code below limit adds zero to message */
 #endif
 
 #if __STDC_VERSION__ < 199901L
